@@ -8,7 +8,9 @@ static void gen_c03(Draw &d, Case &c) {
   int n = std::min(40, std::max(6, p + 3 + (int)d.sz(0, 25)));
   int ny = d.coin(50) ? (int)d.i(2, 4) : (int)d.i(1, 4);
   int xopt = (int)d.i(-1, 5), yopt = (int)d.i(-1, 5);
-  RegData R = gen_regression(d, n, p, ny, 3.0, xopt, yopt);
+  bool design = d.coin(20);
+  RegData R = design ? gen_design_regression(d, n, p, ny, xopt, yopt) : gen_regression(d, n, p, ny, 3.0, xopt, yopt);
+  if (design) c.tags.push_back("orthogonal-design");
   Prep Px = ref_preprocess(R.X, xopt);
   int rank = std::max(1, numerical_rank(singular_values(Px.X), 1e-9L));
   int nlv = (rank >= 2 && d.coin(60)) ? (int)d.i(2, rank) : (int)d.i(1, rank);
